@@ -8,7 +8,7 @@ use crate::prng::Rng;
 use crate::recorder;
 use crate::report::{Ctx, Violation};
 use crate::spec::*;
-use crate::tok::tar_entry_bytes;
+use crate::tok::{tar_entry_bytes, tar_special_entry_bytes};
 use crate::Tier;
 
 const P: &str = "C18";
@@ -42,7 +42,13 @@ pub fn gen(seed: u64, tier: Tier) -> ScenarioSpec {
     if rng.chance(1, 2) {
         let n = 1 + rng.below(5);
         for _ in 0..n {
-            let name = match rng.below(6) {
+            let name = match rng.below(8) {
+                6 => {
+                    // a long (GNU) name whose first 100 bytes end in a known entry name: only the full name says it is unknown
+                    let k = *rng.pick(&["start.raw", "end.raw", "peppi.json", "metadata.json", "frames.arrow", "gecko_codes.raw", "start.json"]);
+                    format!("{}/{}{}", "x".repeat(100 - k.len() - 1), k, *rng.pick(&[".orig", ".bak", "2", "~"]))
+                }
+                7 => format!("{}/", *rng.pick(&["notes", "extra.d", "frames.arrow.d"])),
                 0 => "notes.txt".to_string(),
                 1 => "extra.json".to_string(),
                 2 => "sub/dir/thing.bin".to_string(),
@@ -50,7 +56,9 @@ pub fn gen(seed: u64, tier: Tier) -> ScenarioSpec {
                 4 => "peppi.json.bak".to_string(),
                 _ => format!("u{}.raw", rng.below(1000)),
             };
-            spec.archive_edits.push(ArchiveEdit { before: rng.below(8) as u8, name, size: if rng.chance(1, 4) { 0 } else { rng.below(5000) as u32 }, pseed: rng.next_u64() });
+            // some unknown entries are not regular files (a directory, a symlink, a fifo)
+            let typeflag = if name.ends_with('/') { b'5' } else if rng.chance(1, 8) { *rng.pick(&[b'2', b'1', b'6', b'5']) } else { 0 };
+            spec.archive_edits.push(ArchiveEdit { before: rng.below(8) as u8, name, size: if rng.chance(1, 4) { 0 } else { rng.below(5000) as u32 }, pseed: rng.next_u64(), typeflag });
         }
     }
     spec.knobs.insert("prelude".into(), gen_prelude(&mut rng, &[3, 5], 3));
@@ -75,6 +83,10 @@ fn rebuild(ar: &Archive, edits: &[ArchiveEdit], version: Option<[u8; 3]>) -> Res
     let last_insert = if ar.entries.last().map_or(false, |e| e.name == "frames.arrow") { n - 1 } else { n };
     for (i, e) in ar.entries.iter().enumerate() {
         for ed in edits.iter().filter(|ed| (ed.before as usize).min(last_insert) == i) {
+            if ed.typeflag != 0 {
+                out.extend_from_slice(&tar_special_entry_bytes(&ed.name, ed.typeflag));
+                continue;
+            }
             let mut d = vec![0u8; ed.size as usize];
             Rng::new(ed.pseed).fill(&mut d);
             out.extend_from_slice(&tar_entry_bytes(&ed.name, &d));
@@ -91,6 +103,10 @@ fn rebuild(ar: &Archive, edits: &[ArchiveEdit], version: Option<[u8; 3]>) -> Res
         out.extend_from_slice(&tar_entry_bytes(&e.name, data));
     }
     for ed in edits.iter().filter(|ed| (ed.before as usize).min(last_insert) >= n) {
+        if ed.typeflag != 0 {
+            out.extend_from_slice(&tar_special_entry_bytes(&ed.name, ed.typeflag));
+            continue;
+        }
         let mut d = vec![0u8; ed.size as usize];
         Rng::new(ed.pseed).fill(&mut d);
         out.extend_from_slice(&tar_entry_bytes(&ed.name, &d));
@@ -194,6 +210,7 @@ pub fn run(spec: &ScenarioSpec, ctx: &mut Ctx) -> Result<(), Violation> {
         let mutated = rebuild(&ar, &spec.archive_edits, spec.archive_version).map_err(|e| Violation::new(P, "harness-error", "rebuild", e))?;
         ctx.fault("unknown_archive_entry", spec.archive_edits.len() as u64);
         ctx.probe_if(spec.archive_edits.iter().any(|e| e.name.len() > 100), "unknown entry with a long (GNU) name");
+        ctx.probe_if(spec.archive_edits.iter().any(|e| e.typeflag != 0), "unknown entry that is not a regular file");
         let too_old = spec.archive_version.map_or(false, |v| v < [2, 0, 0]);
         // the skip-frames option must not change what is accepted
         match (read_slpp(&mutated, &StreamSpec::default(), true).res, too_old) {
